@@ -147,17 +147,23 @@ func (r *RoundTripper) RoundTripOpt(req *http.Request, opt RoundTripOpt) (*http.
 		}
 	}
 	if err != nil {
+		if err != ErrNoCachedConn {
+			closeRequestBody(req)
+		}
 		return nil, err
 	}
 
 	select {
 	case <-cl.dialing:
 	case <-req.Context().Done():
+		cl.useCount.Add(-1)
+		closeRequestBody(req)
 		return nil, context.Cause(req.Context())
 	}
 
 	if cl.dialErr != nil {
 		r.removeClient(hostname)
+		closeRequestBody(req)
 		return nil, cl.dialErr
 	}
 	defer cl.useCount.Add(-1)
@@ -170,7 +176,9 @@ func (r *RoundTripper) RoundTripOpt(req *http.Request, opt RoundTripOpt) (*http.
 			r.removeClient(hostname)
 		}
 
-		if isReused {
+		// retry on a new connection if the reused one timed out - but not if it is
+		// the request's own context that is done
+		if isReused && req.Context().Err() == nil {
 			if nerr, ok := err.(net.Error); ok && nerr.Timeout() {
 				return r.RoundTripOpt(req, opt)
 			}
@@ -288,6 +296,12 @@ func (r *RoundTripper) getClient(ctx context.Context, hostname string, onlyCache
 		select {
 		case <-cl.dialing:
 			if cl.dialErr == nil && cl.conn != nil && cl.conn.Context().Err() != nil {
+				delete(r.clients, hostname)
+				ok = false
+			}
+			if cl.dialErr != nil {
+				// The dial failed, e.g. because the context of the request that
+				// started it was canceled. That must not fail this request: dial again.
 				delete(r.clients, hostname)
 				ok = false
 			}
